@@ -244,6 +244,8 @@ def direct_eval(tname, nodes, exprs, root, args, wild_templates):
             raw = exprs[m - 1].operands[0]
             if n["v"]["c"] == "unsupported":
                 raise NotEvaluable("constant not encoded: " + n["v"]["name"])
+            if P.alt_value(raw) is not None:       # (mixed real/complex alt constants are "unsupported" above)
+                raw = P.alt_value(raw)        # enable_alt: the number in the alternative type (converted to the node's type below)
             if isinstance(raw, str):
                 if tname == "python":
                     if raw not in PY_NAMED:
@@ -371,7 +373,8 @@ def cpp_reference(nodes, exprs, root, params, wild_templates, name):
         elif k == "constant":
             if n["v"]["c"] == "unsupported":
                 raise NotEvaluable("constant not encoded: " + n["v"]["name"])
-            e = cpp_const(exprs[m - 1].operands[0], t)
+            raw = exprs[m - 1].operands[0]
+            e = cpp_const(raw if P.alt_value(raw) is None else P.alt_value(raw), t)
         elif k in wild_templates and isinstance(wild_templates[k], str):
             e = wild_templates[k].format(*["n%d" % j for j in a], typeof_0=CPP_T.get(tys[a[-1]], "double"))
         elif k in CPP_BIN:
@@ -583,6 +586,8 @@ def shipped_requests(fa):
         for func, sigs in target.trace_arguments.items():
             for sig in sigs:
                 out.append(dict(src="shipped", target=tname, func=func, sig=list(sig)))
+                if tname == "numpy":
+                    out.append(dict(src="shipped", target=tname, func=func, sig=list(sig), ctx="alt:float64"))
     return out
 
 
@@ -590,7 +595,7 @@ NUM_VALUES = {
     "0": 0.0, "1": 1.0, "-1": -1.0, "2": 2.0, "3": 3.0, "4": 4.0, "0.5": 0.5, "1/2": 0.5, "0.1": 0.1, "0.2": 0.2, "-0.0": -0.0, "1.5": 1.5,
     "0.25": 0.25, "1e-300": 1e-300, "1e300": 1e300, "1e-40": 1e-40, "1e30": 1e30, "3.4028235e38": 3.4028235e38, "16777217": 16777217.0,
     "inf": math.inf, "-inf": -math.inf, "nan": math.nan, "int:0": 0, "int:1": 1, "int:2": 2, "int:3": 3, "int:-2": -2,
-    "int:big": 2 ** 62 + 1, "sqrt2_32": numpy.float32(2) ** numpy.float32(0.5), "third_32": numpy.float32(1) / numpy.float32(3),
+    "int:big": 2 ** 62 + 1, "int:2^53+1": 2 ** 53 + 1, "int:2^31": 2 ** 31, "int:-2^31-1": -(2 ** 31) - 1, "sqrt2_32": numpy.float32(2) ** numpy.float32(0.5), "third_32": numpy.float32(1) / numpy.float32(3),
     "third_64": 1.0 / 3.0, "pi_64": math.pi, "cplx": 1.5 - 2j, "cplx_nzim": complex(1.5, -0.0), "cplx_nzre": complex(-0.0, 2.0), "cplx_pzim": complex(1.5, 0.0),
     "true": True, "false": False,
 }
@@ -683,7 +688,7 @@ def build_expr(ctx, term, syms, tname):
     return f(*ops)
 
 
-def build_term_graph(fa, term, tname, variant):
+def build_term_graph(fa, term, tname, variant, ctxname="plain"):
     syms_t = {}
     collect_symbols(term, tname, variant, syms_t)
     names = sorted(syms_t)
@@ -697,18 +702,24 @@ def build_term_graph(fa, term, tname, variant):
     src = "def fn(ctx, %s):\n    return _build(ctx, dict(%s))\n" % (", ".join(names), ", ".join("%s=%s" % (n, n) for n in names))
     ns = dict(_build=_build)
     exec(src, ns)
-    ctx = fa.Context(paths=[fa.algorithms])
+    ctx = fa.Context(paths=[fa.algorithms], **CONTEXTS[ctxname])
     return ctx.trace(ns["fn"], *["%s:%s" % (n, syms_t[n]) for n in names])
+
+
+# the ways a caller may configure the tracing context (enable_alt: literals become constants of an alternative context,
+# typed by default_constant_type or by the literal - results/update.py and tests/test_algorithms.py::test_target use it)
+CONTEXTS = {"plain": {}, "alt": dict(enable_alt=True), "alt:float64": dict(enable_alt=True, default_constant_type="float64"),
+            "alt:float32": dict(enable_alt=True, default_constant_type="float32")}
 
 
 def make_graph(fa, req):
     """-> graph after the target's expansion pass, or raises"""
     target = getattr(fa.targets, req["target"])
     if req["src"] == "shipped":
-        ctx = fa.Context(paths=[fa.algorithms])
+        ctx = fa.Context(paths=[fa.algorithms], **CONTEXTS[req.get("ctx", "plain")])
         g = ctx.trace(getattr(fa.algorithms, req["func"]), *req["sig"])
     else:
-        g = build_term_graph(fa, req["term"], req["target"], req.get("variant", 0))
+        g = build_term_graph(fa, req["term"], req["target"], req.get("variant", 0), req.get("ctx", "plain"))
     if req.get("simplify", True):
         return g.rewrite(target, fa.rewrite)
     return g.rewrite(target)
@@ -1068,6 +1079,18 @@ def generated_requests(chk, tier, seed):
     add("PrinterTerms.kinds", kinds, variants=(0, 1) if quick else (0, 1, 2))
     consts = gen_terms("PrinterTerms", "PrinterTerms.cfg", "consts", chk)
     add("PrinterTerms.consts", consts)
+    # the same graphs traced in enable_alt contexts (every other way of configuring the context): the terms with numeric constants
+    n0 = len(reqs)
+    # not explored in alt contexts (each would need its own reading of "the constant's type"): integer-typed graphs (a float
+    # default_constant_type makes their literals ill-typed by construction), constants given as NumPy scalars of another width
+    with_num = [t for t in kinds + consts if '"num"' in json.dumps(t) and not any(w in json.dumps(t) for w in ('"I"', "_32", "_64", "int:"))]
+    add("PrinterTerms.alt", with_num, variants=(0, 1), frac=0.35 if quick else 1.0)
+    for j, r in enumerate(reqs[n0:]):
+        r["ctx"] = ("alt:float64", "alt", "alt:float32")[j % 3]
+    # integer constants beyond int32 only make sense in the 64-bit integer variant (variant 0)
+    reqs[:] = [r for r in reqs if not (r.get("variant", 0) >= 1 and "int:2^" in json.dumps(r.get("term", "")) or "int:-2^" in json.dumps(r.get("term", "")) and r.get("variant", 0) >= 1)]
+    # (the Python target has a single float type: "the literal in the alternative type" has no reading there)
+    reqs[n0:] = [r for r in reqs[n0:] if r["target"] != "python"]
     dags = gen_terms("PrinterTerms", "PrinterTerms.cfg", "dags", chk)
     add("PrinterTerms.dags", dags, variants=(0,) if quick else (0, 1), frac=0.2 if quick else 1.0)
     rnd = gen_terms("PrinterTerms", "PrinterTerms.cfg", "random", chk, subst=[(r"NumRandom = \d+", "NumRandom = %d" % (160 if quick else 4000)),
@@ -1117,7 +1140,8 @@ def generated_requests(chk, tier, seed):
 def describe(req):
     if req["src"] == "shipped":
         return "%s(%s)" % (req["func"], ",".join(req["sig"]))
-    return "%s v%s %s" % (req["src"], req.get("variant", 0), json.dumps(req["term"], separators=(",", ":")))
+    return "%s v%s %s%s" % (req["src"], req.get("variant", 0), json.dumps(req["term"], separators=(",", ":")),
+                            " [ctx %s]" % req["ctx"] if req.get("ctx", "plain") != "plain" else "")
 
 
 def shape_of(term, depth=0):
@@ -1249,7 +1273,11 @@ def collect(chk, order, res, path_hint=None):
                      dict(base, error=r.get("load_error", "")))
             continue
         skeys = {}
-        if "static" in d:
+        exec_only = req.get("ctx", "plain") != "plain"
+        # enable_alt contexts: the structural clauses of FAPrinter.tla do not model constants that are expressions of an
+        # alternative context (folded there, typed there); such programs are judged by EXECUTION only (emitted text vs
+        # direct evaluation of the graph, the alt constant denoting its number in the alternative type converted to the node's)
+        if "static" in d and not exec_only:
             triples = set_items(d["static"][1])
             skeys = static_keys(r, triples)
             for key, trs in skeys.items():
